@@ -26,7 +26,9 @@ impl AccessPolicy {
     /// given as a string.
     fn find_matching_closing_parenthesis(boolean_expression: &str) -> Result<usize, Error> {
         let mut count = 0;
-        for (index, c) in boolean_expression.chars().enumerate() {
+        // The returned index is used to slice the expression: it needs to be a
+        // byte index.
+        for (index, c) in boolean_expression.char_indices() {
             match c {
                 '(' => count += 1,
                 ')' => count -= 1,
@@ -105,8 +107,10 @@ impl AccessPolicy {
             } else if e == "*" {
                 return Ok(Self::conjugate(Self::Broadcast, q.into_iter()));
             } else {
-                match &e[..1] {
-                    "(" => {
+                // All separators are ASCII characters: it is safe to slice
+                // right after them.
+                match e.chars().next() {
+                    Some('(') => {
                         let offset = Self::find_matching_closing_parenthesis(&e[1..])?;
                         q.push_back(Self::parse(&e[1..1 + offset]).map_err(|err| {
                             Error::InvalidBooleanExpression(format!(
@@ -115,8 +119,8 @@ impl AccessPolicy {
                         })?);
                         e = &e[2 + offset..];
                     }
-                    "|" => {
-                        if e[1..].is_empty() || &e[1..2] != "|" {
+                    Some('|') => {
+                        if !e[1..].starts_with('|') {
                             return Err(Error::InvalidBooleanExpression(format!(
                                 "invalid separator in: '{e}'"
                             )));
@@ -127,8 +131,8 @@ impl AccessPolicy {
                         let lhs = Self::conjugate(base, q.into_iter());
                         return Ok(lhs | Self::parse(&e[2..])?);
                     }
-                    "&" => {
-                        if e[1..].is_empty() || &e[1..2] != "&" {
+                    Some('&') => {
+                        if !e[1..].starts_with('&') {
                             return Err(Error::InvalidBooleanExpression(format!(
                                 "invalid leading separator in: '{e}'"
                             )));
@@ -140,7 +144,7 @@ impl AccessPolicy {
                         }
                         e = &e[2..];
                     }
-                    ")" => {
+                    Some(')') => {
                         return Err(Error::InvalidBooleanExpression(format!(
                             "unmatched closing parenthesis in '{e}'"
                         )));
